@@ -4,7 +4,7 @@ import (
 	"fmt"
 	"math/rand"
 	"os"
-	"os/exec"
+	"path/filepath"
 
 	"github.com/els0r/goProbe/v4/pkg/goDB/encoder/encoders"
 	"verifharness/eng"
@@ -12,19 +12,29 @@ import (
 )
 
 func main() {
-	r := rand.New(rand.NewSource(3))
-	db := gen.RandRefDB(r, gen.DBOpts{MaxIfaces: 1, MaxDays: 2, MaxBlocksDay: 3, MaxFlows: 3, Flow: gen.FlowOpts{V6Prob: 0.4}})
-	db.Ifaces[0].Blocks[0].Flows = nil
+	r := rand.New(rand.NewSource(5))
+	db := gen.RandRefDB(r, gen.DBOpts{MaxIfaces: 1, MaxDays: 3, MaxBlocksDay: 3, MaxFlows: 4, Flow: gen.FlowOpts{V6Prob: 0.4}})
 	p := "/tmp/reader-spike-db"
 	os.RemoveAll(p)
-	if err := db.Write(p, encoders.EncoderTypeLZ4, 0); err != nil {
+	if err := db.Write(p, encoders.EncoderTypeZSTD, 0); err != nil {
 		panic(err)
 	}
-	out, _ := exec.Command("find", p, "-type", "f", "-printf", "%p %s\n").Output()
-	fmt.Println(string(out))
-	fmt.Println(db.Summary())
+	days, _ := filepath.Glob(p + "/*/*/*/*")
+	fmt.Println(days, db.Summary())
+	switch os.Args[1] {
+	case "delete":
+		os.Remove(days[0] + "/pkts_sent.gpf")
+	case "foreign":
+		b, _ := os.ReadFile(days[1] + "/.blockmeta")
+		os.WriteFile(days[0]+"/.blockmeta", b, 0o644)
+	}
+	eng.QuietLogs(os.Stderr)
 	tss := db.AllTimestamps()
-	res, err, pm := eng.Run(p, eng.Args("time,sip", "any", "", tss[0]-10, tss[len(tss)-1]+10))
-	fmt.Println(err, pm)
-	fmt.Printf("%+v\n", res.Summary.Stats)
+	a := eng.Args("time,dip", "any", "", tss[0]-10, tss[len(tss)-1]+10)
+	a.LowMem = os.Args[2] == "lowmem"
+	res, err, pm := eng.Run(p, a)
+	fmt.Println("ERR", err, pm)
+	if res != nil {
+		fmt.Printf("rows=%d %+v\n", len(res.Rows), res.Summary.Stats)
+	}
 }
